@@ -630,6 +630,10 @@ def eval_nonecol(ctx, c):
     if back.dtype.kind != 'O' or back.tolist() != vals:
         fails.append(Failure('oracle', f'str column with None {vals} (delimiter {c["d"]!r}, next to a {c["extra"]} column) came back as {back!r}', c))
     other = [k for k, _ in items if k != 's'][0]
+    if g[other].values.dtype.kind != f[other].values.dtype.kind or g.index.values.dtype.kind != f.index.values.dtype.kind:
+        fails.append(Failure('oracle', f'frame with a None-holding str column (delimiter {c["d"]!r}): the kind of column {other!r} / of the index changed from '
+                                       f'{f[other].values.dtype.kind}/{f.index.values.dtype.kind} to {g[other].values.dtype.kind}/{g.index.values.dtype.kind} '
+                                       f'although they hold no missing value', c))
     if g[other].values.tolist() != f[other].values.tolist() or g.index.values.tolist() != f.index.values.tolist():
         fails.append(Failure('oracle', f'frame with a None-holding str column: column {other!r} / index came back as {g[other].values.tolist()} / {g.index.values.tolist()}', c))
     return fails
